@@ -165,7 +165,7 @@ func (c *boundedPool) put(conn net.Conn) error {
 		return nil
 	default:
 		// pool is full, close passed connection
-		c.tryFree()
+		c.tryFreeLocked()
 		return conn.Close()
 	}
 }
@@ -216,6 +216,12 @@ func (c *boundedPool) tryTake() bool {
 func (c *boundedPool) tryFree() bool {
 	c.mu.RLock()
 	defer c.mu.RUnlock()
+	return c.tryFreeLocked()
+}
+
+// tryFreeLocked is tryFree for callers that already hold c.mu: the mutex is
+// not re-entrant, a second read lock deadlocks with a waiting Close.
+func (c *boundedPool) tryFreeLocked() bool {
 	select {
 	case <-c.total:
 		return true
